@@ -76,14 +76,108 @@ def detached_t(node):
                "non-root node has a creator (CHECK constraint of the node table, trusted to SQLite)")
 class node_creator:
     result = lambda self: ty.Opt(ty.Make(lambda n: any_node(self.graph, "creator")))
-    ensures = lambda self, result: sym.wrap_bool(tm.Implies(
-        tm.Not(detached_t(self)), tm.Not(result.isnone if isinstance(result, sym.SymOpt) else tm.mk_bool(result is None))))
     modifies = []
+
+    @staticmethod
+    def ensures(self, result):
+        """None exactly when the creator column is NULL; otherwise the node whose id is in that column."""
+        from contracts import graphdb
+
+        col = graphdb.column(db_of(self), "node", "creator", sym.I(self.i))
+        isn = result.isnone if isinstance(result, sym.SymOpt) else tm.mk_bool(result is None)
+        pay = result.payload if isinstance(result, sym.SymOpt) else result
+        same = tm.Eq(sym.I(pay.i), col.t) if pay is not None else tm.TRUE
+        return sym.wrap_bool(tm.And(tm.Implies(tm.Not(detached_t(self)), tm.Not(isn)), tm.Iff(isn, col.null),
+                                    tm.Implies(tm.Not(isn), same)))
+
+
+# --------------------------------------------------------------------------- abstract view of the declarations
+#
+# Per database version: which paths are claimed by an attached file node (with role and creator), which step
+# labels are taken by an attached step, which paths lie under an attached static tree.  The view is tied to the
+# stored tables by the contracts of the lookup functions (contracts/C08_claims.py, contracts/C18_under.py); the
+# effect of the graph primitives on it is stated here (assumed) and in the contracts of their callers (proved).
+
+
+class View:
+    def __init__(self, db):
+        self.db = db
+
+    def claimed(self, path):
+        return self.db.fact("claimed", path)
+
+    def role(self, path):
+        return self.db.fact("claimrole", path, sort=tm.INT)
+
+    def creator(self, path):
+        return self.db.fact("claimcreator", path, sort=tm.INT)
+
+    def step_exists(self, label):
+        return self.db.fact("stepexists", label)
+
+    def owned(self, path):
+        return self.db.fact("owned", path)
+
+    def globmatch(self, path):
+        """Some attached glob registration's pattern matches the path."""
+        return self.db.fact("globmatch", path)
+
+    def owner(self, path):
+        return self.db.fact("owningtree", path, sort=tm.INT)
+
+
+def role_of_state(st: tm.T) -> tm.T:
+    """ROLE(state) as an integer term (FileRole value); 0 for the roleless UNDECLARED."""
+    out = tm.mk_int(0)
+    for state, role in enums.FILE_ROLE_BY_STATE.items():
+        out = tm.Ite(tm.Eq(st, tm.mk_int(state.value)), tm.mk_int(role.value), out)
+    return out
+
+
+def _forall_str(name, body_of, pattern_of):
+    c = sym.cur()
+    v = tm.Var(c.fresh_name(name + "!bound"), tm.STR)
+    return tm.ForAll([(v.s, tm.STR)], body_of(v), patterns=[[pattern_of(v)]])
+
+
+def same_claim_view(old: View, new: View, path) -> tm.T:
+    return tm.And(tm.Iff(new.claimed(path), old.claimed(path)), tm.Eq(new.role(path), old.role(path)),
+                  tm.Eq(new.creator(path), old.creator(path)))
+
+
+def frame_view(old: View, new: View, changed_path=None, changed_step=None, trees_changed=False, globs_changed=False):
+    """Everything in the view is unchanged, except the claim on `changed_path`, the step label `changed_step`."""
+    fs = []
+
+    def claims(v):
+        same = tm.And(tm.Iff(new.claimed(v), old.claimed(v)), tm.Eq(new.role(v), old.role(v)),
+                      tm.Eq(new.creator(v), old.creator(v)))
+        return same if changed_path is None else tm.Implies(tm.Ne(v, sym.S(changed_path)), same)
+
+    fs.append(_forall_str("p", claims, new.claimed))
+    fs.append(_forall_str("p", claims, new.role))
+    fs.append(_forall_str("p", claims, new.creator))
+
+    def steps(v):
+        same = tm.Iff(new.step_exists(v), old.step_exists(v))
+        return same if changed_step is None else tm.Implies(tm.Ne(v, sym.S(changed_step)), same)
+
+    fs.append(_forall_str("l", steps, new.step_exists))
+    if not globs_changed:
+        fs.append(_forall_str("p", lambda v: tm.Iff(new.globmatch(v), old.globmatch(v)), new.globmatch))
+    if not trees_changed:
+        trees = lambda v: tm.And(tm.Iff(new.owned(v), old.owned(v)), tm.Eq(new.owner(v), old.owner(v)))  # noqa: E731
+        fs.append(_forall_str("p", trees, new.owned))
+        fs.append(_forall_str("p", trees, new.owner))
+    return tm.And(*fs)
 
 
 @contract("stepup/core/trellis.py::Trellis.create", props=[], verify=False,
           note="returns a node of the requested type and (adjusted) label in this graph; raises "
-               "ConsistencyError when an attached node with this label exists; changes only database tables")
+               "ConsistencyError when an attached node with this label exists; changes only database tables. "
+               "View: creating a File under an attached creator makes that creator the claimant of the label in "
+               "the role of the given state and changes no other claim, step label or tree; creating a Step takes "
+               "the step label and changes nothing else (recycled nodes were detached, so were their products)")
 class trellis_create:
     may_raise = {ConsistencyError: None}
     result = lambda self, node_type, label: ty.Make(
@@ -91,7 +185,22 @@ class trellis_create:
     modifies = []
 
     @staticmethod
-    def ensures(self, creator, label, result, kwargs=None):
-        db_of(self).bump()
-        sym.cur().event("create", node_type=result._cls, creator=creator, label=label, node=result)
-        return True
+    def ensures(self, node_type, creator, label, result, kwargs=None):
+        c = sym.cur()
+        db = db_of(self)
+        c.event("create", node_type=result._cls, creator=creator, label=label, node=result, kwargs=kwargs or {})
+        old = View(db.__snapshot__())
+        db.bump()
+        new = View(db)
+        cls = result._cls
+        facts = []
+        if cls is File and creator is not None and kwargs and "state" in kwargs:
+            att = tm.Not(old.db.fact("detached", creator.i))
+            facts.append(tm.Implies(att, tm.And(new.claimed(label), tm.Eq(new.role(label), role_of_state(sym.I(kwargs["state"]))),
+                                                tm.Eq(new.creator(label), sym.I(creator.i)))))
+            facts.append(tm.Implies(tm.Not(att), same_claim_view(old, new, label)))
+            facts.append(frame_view(old, new, changed_path=label))
+            facts.append(tm.Eq(sym.S(result.label), sym.S(label)))  # callers pass normalised paths (File.adjust_label)
+        elif cls is Step:
+            facts.append(frame_view(old, new, changed_step=result.label))
+        return sym.wrap_bool(tm.And(*facts))
